@@ -10,14 +10,31 @@ import (
 	"testing"
 )
 
-// Stream "race": the informer events of a generated history run on one goroutine, the
-// scheduling-cycle calls (Permit / Unreserve / PostBind / AfterPostFilter) on another, a third
-// goroutine keeps taking GetGangSummaries() snapshots (each gang summary is taken under the gang's
-// lock). Observable: one integer
-//   0  every snapshot had pending/waiting/bound pairwise disjoint and pending within children, and
-//      after both goroutines finished every child was in exactly one of the three sets
-//   1  a snapshot violated the weak partition      2  the final state violated the partition
-//   3  a goroutine panicked
+// Stream "race": the operations of a generated history run concurrently the way production delivers
+// them — the PodGroup informer (PodGroup events), two pod-event sources (the Pod informer and the
+// Reservation informer both end in onPodAdd/onPodUpdate/onPodDelete; pod events are split by pod id
+// parity, so every object keeps its own event order) and the scheduling goroutine (Permit / Unreserve /
+// PostBind / AfterPostFilter), each on its own goroutine.
+//
+// Two kinds of repetitions per case:
+//   full      all events of the (protocol-sanitised) history + a sampler goroutine that keeps taking
+//             GetGangSummaries() snapshots; judged on the membership partition
+//   monotone  the history without delete events and without PodGroup updates that no PodGroup add
+//             precedes (vtC04RaceMono): then what every gang IS at quiescence (exists, declared mode /
+//             policy / minimum / group / origin, member set) does not depend on the interleaving
+//             (c04_concurrent_informers_confluent) and is projected for prop_case to compare with the
+//             declarations recomputed from the history. The goroutines that deliver the first event of a
+//             gang meet (bounded spin wait, objects built beforehand) right before they deliver it, so
+//             that the first events of a gang really collide.
+//
+// Observable:  code  then (code = 0 only) two blocks of G x 8 integers
+//     exists init strict policy min groupMask fromCrd childrenMask
+//   code 0  every snapshot had pending/waiting/bound pairwise disjoint and pending within children, and at
+//           quiescence of every repetition every child was in exactly one of the three sets
+//        1  a snapshot violated the weak partition      2  a final state violated the partition
+//        3  a goroutine panicked
+//   block 1 = the gangs at quiescence of the first monotone repetition, block 2 = of the first monotone
+//   repetition that differs from it (block 1 again when none does).
 // The histories are made protocol conformant first (the hypothesis of c04_partition): no Permit for
 // a pod after its PostBind, and informer events carry a node name only for pods that are never
 // permitted.
@@ -53,6 +70,45 @@ func vtC04RaceSanitize(ops [][6]int64) (events, cycle [][6]int64) {
 	return
 }
 
+// vtC04RaceMono keeps the creating / declaring events only: pod add and update events, PodGroup add
+// events, and PodGroup update events of a gang whose PodGroup add event comes earlier (coq: mono_ops).
+func vtC04RaceMono(events [][6]int64) [][6]int64 {
+	var out [][6]int64
+	pgAdded := map[int64]bool{}
+	for _, o := range events {
+		switch o[0] {
+		case 1, 2:
+			out = append(out, o)
+		case 4:
+			pgAdded[o[1]] = true
+			out = append(out, o)
+		case 5:
+			if pgAdded[o[1]] {
+				out = append(out, o)
+			}
+		}
+	}
+	return out
+}
+
+// vtC04RaceThreads: PodGroup events | pod events of even pods | pod events of odd pods
+func vtC04RaceThreads(events [][6]int64) [3][][6]int64 {
+	var th [3][][6]int64
+	for _, o := range events {
+		switch o[0] {
+		case 4, 5, 6:
+			th[0] = append(th[0], o)
+		default:
+			if o[1]%2 == 0 {
+				th[1] = append(th[1], o)
+			} else {
+				th[2] = append(th[2], o)
+			}
+		}
+	}
+	return th
+}
+
 // weak partition of one projected gang (12 integers, see observe): masks at 8..11
 func vtC04WeakOK(v []int64) bool {
 	if v[0] == 0 {
@@ -70,14 +126,79 @@ func vtC04FullOK(v []int64) bool {
 	return vtC04WeakOK(v) && c&^(p|w|b) == 0
 }
 
-func vtC04RaceOnce(in []int64) int64 {
+// rendezvous of the goroutines that are about to deliver the first event of one gang: a spin wait with a
+// bound (the goroutines may meet the gangs in different orders, so nobody waits for ever)
+type vtC04Meet struct {
+	parties int32
+	arrived int32
+}
+
+func (m *vtC04Meet) wait() {
+	if m.parties < 2 {
+		return
+	}
+	atomic.AddInt32(&m.arrived, 1)
+	for i := 0; atomic.LoadInt32(&m.arrived) < m.parties && i < 20000; i++ {
+		if i%1024 == 1023 {
+			runtime.Gosched()
+		}
+	}
+}
+
+// vtC04FirstTouch: the gang (1..G) whose cache entry this informer event may create, 0 for other operations
+func (e *vtC04Env) firstTouch(o [6]int64) int64 {
+	switch o[0] {
+	case 1:
+		if e.hasGang(o[1]) {
+			return e.podGang[o[1]]
+		}
+	case 2:
+		if e.hasGang(o[1]) && o[3] == 0 {
+			return e.podGang[o[1]]
+		}
+	case 4:
+		if o[1] >= 1 && o[1] <= e.G {
+			return o[1]
+		}
+	}
+	return 0
+}
+
+// vtC04RaceOnce runs one repetition; mono selects the monotone variant. It returns the partition code
+// and (mono only) the declarations of the gangs at quiescence.
+func vtC04RaceOnce(in []int64, mono bool) (int64, []int64) {
 	e, ops := vtC04NewEnv(in)
 	events, cycle := vtC04RaceSanitize(ops)
+	if mono {
+		events = vtC04RaceMono(events)
+	}
+	th := vtC04RaceThreads(events)
+	seqs := [][][6]int64{th[0], th[1], th[2], cycle}
+	// monotone: per gang, the goroutines meet right before their first event of that gang
+	meets := make([]*vtC04Meet, e.G+1)
+	meetAt := make([]map[int]int64, len(seqs)) // thread -> op index -> gang
+	for g := range meets {
+		meets[g] = &vtC04Meet{}
+	}
+	for ti, seq := range seqs {
+		meetAt[ti] = map[int]int64{}
+		if !mono || ti == 3 {
+			continue
+		}
+		seen := map[int64]bool{}
+		for i, o := range seq {
+			if g := e.firstTouch(o); g != 0 && !seen[g] {
+				seen[g] = true
+				meetAt[ti][i] = g
+				meets[g].parties++
+			}
+		}
+	}
 	var bad int64
 	var wg sync.WaitGroup
 	start := make(chan struct{})
 	done := make(chan struct{})
-	runThread := func(seq [][6]int64) {
+	runThread := func(ti int, seq [][6]int64) {
 		defer wg.Done()
 		defer func() {
 			if r := recover(); r != nil {
@@ -85,65 +206,227 @@ func vtC04RaceOnce(in []int64) int64 {
 			}
 		}()
 		<-start
-		for _, o := range seq {
-			e.apply(o)
+		for i, o := range seq {
+			func() {
+				defer func() {
+					if r := recover(); r != nil {
+						atomic.StoreInt64(&bad, 3)
+					}
+				}()
+				if g, ok := meetAt[ti][i]; ok {
+					if call := e.prepare(o); call != nil {
+						meets[g].wait()
+						call()
+						return
+					}
+				}
+				e.apply(o)
+			}()
 			runtime.Gosched()
 		}
 	}
-	wg.Add(2)
-	go runThread(events)
-	go runThread(cycle)
+	wg.Add(len(seqs))
+	for ti, s := range seqs {
+		go runThread(ti, s)
+	}
 	var swg sync.WaitGroup
-	swg.Add(1)
-	go func() {
-		defer swg.Done()
-		defer func() {
-			if r := recover(); r != nil {
-				atomic.StoreInt64(&bad, 3)
+	if !mono {
+		swg.Add(1)
+		go func() {
+			defer swg.Done()
+			defer func() {
+				if r := recover(); r != nil {
+					atomic.StoreInt64(&bad, 3)
+				}
+			}()
+			<-start
+			buf := make([]int64, 0, 12*int(e.G))
+			for {
+				select {
+				case <-done:
+					return
+				default:
+				}
+				buf = e.observe(buf[:0])
+				for g := 0; g < int(e.G); g++ {
+					if !vtC04WeakOK(buf[12*g : 12*g+12]) {
+						atomic.CompareAndSwapInt64(&bad, 0, 1)
+					}
+				}
+				runtime.Gosched()
 			}
 		}()
-		<-start
-		buf := make([]int64, 0, 12*int(e.G))
-		for {
-			select {
-			case <-done:
-				return
-			default:
-			}
-			buf = e.observe(buf[:0])
-			for g := 0; g < int(e.G); g++ {
-				if !vtC04WeakOK(buf[12*g : 12*g+12]) {
-					atomic.CompareAndSwapInt64(&bad, 0, 1)
-				}
-			}
-			runtime.Gosched()
-		}
-	}()
+	}
 	close(start)
 	wg.Wait()
 	close(done)
 	swg.Wait()
 	if b := atomic.LoadInt64(&bad); b != 0 {
-		return b
+		return b, nil
 	}
+	return e.quiescent(mono)
+}
+
+// quiescent judges the partition of the final state and (withDecl) projects what every gang is:
+// exists init strict policy min groupMask fromCrd childrenMask
+func (e *vtC04Env) quiescent(withDecl bool) (int64, []int64) {
 	fin := e.observe(nil)
 	for g := 0; g < int(e.G); g++ {
 		if !vtC04FullOK(fin[12*g : 12*g+12]) {
-			return 2
+			return 2, nil
 		}
 	}
-	return 0
+	if !withDecl {
+		return 0, nil
+	}
+	decl := make([]int64, 0, 8*int(e.G))
+	for g := 0; g < int(e.G); g++ {
+		v := fin[12*g : 12*g+12]
+		decl = append(decl, v[0], v[1], v[2], v[3], v[4], v[5], v[6], v[8])
+	}
+	return 0, decl
+}
+
+// vtC04RaceStorm is a cheap monotone repetition aimed at the creation of the cache entries: gang by gang,
+// the first event of the gang from each event source (PodGroup informer, even pods, odd pods; objects built
+// beforehand) is delivered by its own goroutine at the same instant (pure spin barrier); the remaining
+// events and the scheduling-cycle calls then run one after the other. With threads = (source, gang) queues
+// this is one interleaving in the sense of c04_concurrent_informers_confluent (every queue keeps its order;
+// the events it overtakes are no-ops for that gang).
+func vtC04RaceStorm(in []int64) (int64, []int64) {
+	e, ops := vtC04NewEnv(in)
+	events, cycle := vtC04RaceSanitize(ops)
+	events = vtC04RaceMono(events)
+	source := func(o [6]int64) int {
+		if o[0] == 4 || o[0] == 5 {
+			return 0
+		}
+		return 1 + int(o[1]&1)
+	}
+	used := make([]bool, len(events))
+	var bad int64
+	for g := int64(1); g <= e.G; g++ {
+		var calls []func()
+		var seen [3]bool
+		for i, o := range events {
+			if !used[i] && e.firstTouch(o) == g && !seen[source(o)] {
+				if call := e.prepare(o); call != nil {
+					seen[source(o)] = true
+					used[i] = true
+					calls = append(calls, call)
+				}
+			}
+		}
+		var ready int32
+		var wg sync.WaitGroup
+		for _, call := range calls {
+			wg.Add(1)
+			go func(call func()) {
+				defer wg.Done()
+				defer func() {
+					if r := recover(); r != nil {
+						atomic.StoreInt64(&bad, 3)
+					}
+				}()
+				atomic.AddInt32(&ready, 1)
+				for i := 0; atomic.LoadInt32(&ready) < int32(len(calls)) && i < 2000000; i++ {
+				}
+				call()
+			}(call)
+		}
+		wg.Wait()
+	}
+	func() {
+		defer func() {
+			if r := recover(); r != nil {
+				atomic.StoreInt64(&bad, 3)
+			}
+		}()
+		for i, o := range events {
+			if !used[i] {
+				e.apply(o)
+			}
+		}
+		for _, o := range cycle {
+			e.apply(o)
+		}
+	}()
+	if b := atomic.LoadInt64(&bad); b != 0 {
+		return b, nil
+	}
+	return e.quiescent(true)
+}
+
+func vtC04SameInts(a, b []int64) bool {
+	if len(a) != len(b) {
+		return false
+	}
+	for i := range a {
+		if a[i] != b[i] {
+			return false
+		}
+	}
+	return true
 }
 
 func vtC04RaceExec(in []int64) []int64 {
-	for rep := 0; rep < 12; rep++ {
-		if c := vtC04RaceOnce(in); c != 0 {
+	full, mono, storm := int(vtEnvInt("VERIF_C04_FULL_REPS", 4)), int(vtEnvInt("VERIF_C04_MONO_REPS", 2)), int(vtEnvInt("VERIF_C04_STORM_REPS", 30))
+	for rep := 0; rep < full; rep++ {
+		if c, _ := vtC04RaceOnce(in, false); c != 0 {
 			return []int64{c}
 		}
 	}
-	return []int64{0}
+	var first, other []int64
+	for rep := 0; rep < mono+storm; rep++ {
+		var c int64
+		var decl []int64
+		if rep < mono {
+			c, decl = vtC04RaceOnce(in, true)
+		} else {
+			c, decl = vtC04RaceStorm(in)
+		}
+		if c != 0 {
+			return []int64{c}
+		}
+		if first == nil {
+			first = decl
+		} else if other == nil && !vtC04SameInts(first, decl) {
+			other = decl
+		}
+	}
+	if other == nil {
+		other = first
+	}
+	out := []int64{0}
+	out = append(out, first...)
+	return append(out, other...)
 }
 
-func vtC04RaceGen(r *rand.Rand, i int) (string, []int64) { return vtC04Gen(r, i) }
+// vtC04RaceGen: the history generator, and (one case in three) a "burst" history in which the first
+// events of every gang — its PodGroup add event and the add events of one even and one odd member —
+// stand at the head of the three informer threads, followed by a generated history.
+func vtC04RaceGen(r *rand.Rand, i int) (string, []int64) {
+	label, in := vtC04Gen(r, i)
+	if r.Intn(3) != 0 {
+		return label, in
+	}
+	e, ops := vtC04NewEnv(in)
+	var head [][6]int64
+	for g := int64(1); g <= e.G; g++ {
+		c := e.acfg[g]
+		if r.Intn(4) != 0 {
+			head = append(head, [6]int64{4, g, c.min, c.mode, c.policy, c.mask})
+		}
+		seen := [2]bool{}
+		for p := int64(0); p < e.P; p++ {
+			if e.podGang[p] == g && !seen[p%2] {
+				seen[p%2] = true
+				head = append(head, [6]int64{1, p, vtB(r.Intn(5) == 0), 0, 0, 0})
+			}
+		}
+	}
+	hd := &vtC04Hdr{G: e.G, P: e.P, podGang: e.podGang, podKind: e.podKind, acfg: e.acfg}
+	return "burst+" + label, hd.encode(append(head, ops...))
+}
 
 func TestVerifC04Race(t *testing.T) { vtMain(t, "C04", vtC04RaceGen, vtC04RaceExec) }
